@@ -244,41 +244,41 @@ theorem refines (h : List Op) (mro : List Cls) (accepts : Nat → Bool) :
   simp only []
   rw [dispatch_after_isRegistered, firstEff_spec hi', hi'.preds_eq]
 
-/-- **C19 (registry part)** — printing never changes what a later print shows: output depends on the
-registration history alone, not on which values were printed before -/
-theorem history_independent (h : List Op) (prints : List Op)
-    (hp : ∀ op ∈ prints, ∃ m a, op = .print m a ∨ ∃ f, op = .query m f)
+def IsRead (op : Op) : Prop := (∃ m a, op = .print m a) ∨ (∃ m f, op = .query m f)
+
+theorem latest_reads (h prints : List Op) (hp : ∀ op ∈ prints, IsRead op) (c : Cls) :
+    latest (h ++ prints) c = latest h c := by
+  unfold latest
+  rw [List.foldl_append]
+  generalize List.foldl _ none h = acc
+  induction prints generalizing acc with
+  | nil => rfl
+  | cons op r ih =>
+    have hr : ∀ op ∈ r, IsRead op := fun o ho => hp o (by simp [ho])
+    simp only [List.foldl_cons]
+    rcases hp op (by simp) with ⟨m, a, rfl⟩ | ⟨m, f, rfl⟩ <;> exact ih hr acc
+
+theorem predsOf_reads (h prints : List Op) (hp : ∀ op ∈ prints, IsRead op) :
+    predsOf (h ++ prints) = predsOf h := by
+  induction prints generalizing h with
+  | nil => simp
+  | cons op r ih =>
+    have hr : ∀ op ∈ r, IsRead op := fun o ho => hp o (by simp [ho])
+    have : h ++ op :: r = (h ++ [op]) ++ r := by simp
+    rw [this, ih (h ++ [op]) hr, predsOf_append]
+    rcases hp op (by simp) with ⟨m, a, rfl⟩ | ⟨m, f, rfl⟩ <;> simp
+
+/-- **C19 (registry part)** — printing and querying never change what a later print shows: the printer chosen
+depends on the registration history alone, not on which values were printed before, in which order or how often -/
+theorem history_independent (h : List Op) (prints : List Op) (hp : ∀ op ∈ prints, IsRead op)
     (mro : List Cls) (accepts : Nat → Bool) :
     (printValue (run (h ++ prints)) mro accepts).2 = (printValue (run h) mro accepts).2 := by
   rw [refines, refines]
-  have hl : ∀ c, latest (h ++ prints) c = latest h c := by
-    intro c
-    unfold latest
-    rw [List.foldl_append]
-    generalize List.foldl _ none h = acc
-    induction prints generalizing acc with
-    | nil => rfl
-    | cons op r ih =>
-      obtain ⟨m, a, hop⟩ := hp op (by simp)
-      have hr : ∀ op ∈ r, ∃ m a, op = .print m a ∨ ∃ f, op = .query m f := fun o ho => hp o (by simp [ho])
-      simp only [List.foldl_cons]
-      rcases hop with rfl | ⟨f, rfl⟩ <;> exact ih hr acc
-  have hq : predsOf (h ++ prints) = predsOf h := by
-    unfold predsOf
-    rw [List.filterMap_append]
-    have : prints.filterMap (fun | .regPred q p => some (q, p) | _ => none) = [] := by
-      induction prints with
-      | nil => rfl
-      | cons op r ih =>
-        obtain ⟨m, a, hop⟩ := hp op (by simp)
-        have hr : ∀ op ∈ r, ∃ m a, op = .print m a ∨ ∃ f, op = .query m f := fun o ho => hp o (by simp [ho])
-        rcases hop with rfl | ⟨f, rfl⟩ <;> simpa using ih hr
-    rw [this]; simp
   have hs : ∀ l, specNearest (h ++ prints) l = specNearest h l := by
     intro l; induction l with
     | nil => rfl
-    | cons c r ih => simp only [specNearest, hl c, ih]
+    | cons c r ih => simp only [specNearest, latest_reads h prints hp c, ih]
   unfold specPrinter
-  rw [hs, hq]
+  rw [hs, predsOf_reads h prints hp]
 
 end PP.C15
